@@ -208,7 +208,18 @@ def generate(api):
     c1 = b1[0][0].split('||') if b1 else []
     ok1 = bool(b1) and rec is not None and b1[0][3] <= rec and squash(b1[0][1]).endswith('returnOk(());')
     setg('G_USE_SELF', ok1 and 'link==node' in c1, "a `use` that links itself is not expanded")
-    setg('G_USE_ORIGIN', ok1 and 'link==origin' in c1, "a `use` that links the `use` it is expanded from is not expanded")
+    setg('G_USE_ORIGIN', ok1 and 'origin.contains(&link.id())' in c1,
+         "a `use` that links an element on the in-progress list (`origin`) is not expanded")
+    # the in-progress list: ancestors of the use and the link are pushed before the recursive call and popped after it
+    mpush = re.search(r"let\s+origin_len\s*=\s*origin\s*\.\s*len\s*\(\s*\)\s*;\s*origin\s*\.\s*extend\s*\(\s*node\s*\.\s*ancestors\s*\(\s*\)\s*\.\s*map\s*\(\s*\|\s*n\s*\|\s*n\s*\.\s*id\s*\(\s*\)\s*\)\s*\)\s*;\s*"
+                      r"origin\s*\.\s*push\s*\(\s*link\s*\.\s*id\s*\(\s*\)\s*\)\s*;\s*let\s+result\s*=\s*parse_xml_node\s*\(\s*link\s*,\s*origin\s*,", b)
+    mpop = re.search(r"origin\s*\.\s*truncate\s*\(\s*origin_len\s*\)\s*;\s*result\s*$", b.strip())
+    n_rec = len(re.findall(r"\bparse_xml_node\s*\(", b))
+    setg('G_USE_PUSH', bool(mpush) and bool(mpop) and n_rec == 1 and not re.search(r"origin\s*\.\s*(clear|pop|remove|retain)", b),
+         "the ancestors of the `use` and its target are on the in-progress list while the target is expanded")
+    empty0 = bool(re.search(r"parse_xml_node_children\s*\(\s*xml\s*\.\s*root\s*\(\s*\)\s*,\s*&\s*mut\s+Vec\s*::\s*new\s*\(\s*\)\s*,", fn_body(psrc, 'parse') or ''))
+    if not empty0:
+        miss.append("parse() no longer starts with an empty in-progress list")
     b2 = if_blocks(b, r"(^|\|\|)link2==")
     c2 = b2[0][0].split('||') if b2 else []
     b3 = if_blocks(b, r"^is_recursive$")
@@ -225,7 +236,7 @@ def generate(api):
     step_use = None
     mcall = re.search(r"parse_svg_use_element\s*\(\s*node\s*,\s*origin\s*,\s*node_id\s*,\s*style_sheet\s*,\s*depth\s*\+\s*(\d+)\s*,",
                       fn_body(psrc, 'parse_xml_node') or '')
-    mrec = re.search(r"parse_xml_node\s*\(\s*link\s*,\s*node\s*,\s*parent_id\s*,\s*style_sheet\s*,\s*true\s*,\s*depth\s*\+\s*(\d+)\s*,", b)
+    mrec = re.search(r"parse_xml_node\s*\(\s*link\s*,\s*origin\s*,\s*parent_id\s*,\s*style_sheet\s*,\s*true\s*,\s*depth\s*\+\s*(\d+)\s*,", b)
     if mcall and mrec:
         step_use = int(mcall.group(1)) + int(mrec.group(1))
     mkid = re.search(r"parse_xml_node_children\s*\(\s*node\s*,\s*origin\s*,\s*node_id\s*,\s*style_sheet\s*,\s*ignore_ids\s*,\s*depth\s*\+\s*(\d+)\s*,",
